@@ -880,3 +880,26 @@ func (eng *Engine) inventoryFrozen() []string {
 	sort.Strings(bad)
 	return bad
 }
+
+// assignedBeforeAnyCall: closure f is stored into its variable in the entry block of the function that encloses both
+// cur and f, before that function makes any call (so no closure can run while the variable is still nil).
+func (eng *Engine) assignedBeforeAnyCall(cur, f *ssa.Function) bool {
+	p := f.Parent()
+	if p == nil || cur.Parent() != p || len(p.Blocks) == 0 {
+		return false
+	}
+	for _, ins := range p.Blocks[0].Instrs {
+		switch x := ins.(type) {
+		case ssa.CallInstruction:
+			if _, builtin := x.Common().Value.(*ssa.Builtin); builtin {
+				continue // ssa:deferstack and friends run no user code
+			}
+			return false
+		case *ssa.Store:
+			if mc, ok := x.Val.(*ssa.MakeClosure); ok && mc.Fn == f {
+				return true
+			}
+		}
+	}
+	return false
+}
